@@ -27,6 +27,7 @@ props! {
     "c12" c12,
     "c13" c13,
     "c14" c14,
+    "c15" c15,
     "c16" c16,
     "c17" c17,
     "c18" c18,
